@@ -344,4 +344,27 @@ example : (run (fun k => k) (init 100 16 true) (demoOps.take 2)).entries = [0, 2
 example : (run (fun k => k) (init 100 16 true) (demoOps.take 4)).maxSize = 316 := by decide +kernel
 example : (run (fun k => k) (init 100 16 true) demoOps).entries = [3] := by decide +kernel
 
+/-- **sequential ≡ parallel, results**: the completion order of the downloads — the only thing
+that differs between `parallel=False`, `parallel=True` and any thread schedule — enters the
+result of a request only through *which* downloads ran: two admissible schedules with the same
+set of completed downloads give the same returned paths and the same raised error. -/
+theorem output_order_independent (resOf : Nat → Nat) (s : State) (reqs : List Req) (ran₁ ran₂ : List Nat)
+    (h₁ : scheduleOk s.tolerant (reqs.filter (isMiss s)) ran₁ = true)
+    (h₂ : scheduleOk s.tolerant (reqs.filter (isMiss s)) ran₂ = true)
+    (hset : ∀ k, k ∈ ran₁ ↔ k ∈ ran₂) :
+    (get resOf s reqs ran₁).out = (get resOf s reqs ran₂).out := by
+  have hdec : ∀ k, decide (k ∈ ran₁) = decide (k ∈ ran₂) := fun k => by simp [hset k]
+  have hret : returned s reqs ran₁ = returned s reqs ran₂ := by
+    simp only [returned]
+    apply List.filter_congr
+    intro q _
+    rw [hdec]
+  have hfil : (reqs.filter (isMiss s)).filter (fun q => decide (q.key ∈ ran₁)) =
+      (reqs.filter (isMiss s)).filter (fun q => decide (q.key ∈ ran₂)) := by
+    apply List.filter_congr
+    intro q _
+    exact hdec q.key
+  simp only [get, h₁, h₂, Bool.not_true, Bool.false_eq_true, if_false, hret, hfil]
+
+
 end Osu.FC
